@@ -100,7 +100,7 @@ def instrumented(w, fn, rg, kill_at=None):
         ex = extra_files(w)
         if ex and (st, ex) not in full:
             full[(st, ex)] = (counter[0], label)
-        if seen_tmp_write[0] and label == "pre-replace":
+        if seen_tmp_write[0] and label in ("pre-replace", "pre-rename"):
             info["between"] += 1
 
     def on_event(kind, what):
